@@ -14,6 +14,12 @@ broadcast, flatten).  Every program carries two designed pairs of callables that
 ingredient of their identity (receiver, closure content, default, wrapped function ...) and ends by
 mapping each of them over the same action with the same statics, followed by operations whose nodes differ
 in the ORDER of their inputs only (x op y and y op x, a reduction over join(x, y) and over join(y, x)).
+A program may HOLD objects and hand them to several operations: a Payload (or an instance of a Payload subclass), a
+functools.partial, or the list and dict it makes its Payloads from -- one object for both builds (a module-level constant)
+or one per build; given to map (1 input per node), to payload arrays, to reduce (as many inputs as the dimension is long, up
+to 5), to batched reductions with batches of different length (3 + 2, 2 + 2 + 1), to transform, and to from_source cells
+(no input); every such program ends with a held object applied to nodes with one input, then many, then one again; plus an
+exhaustive small scope (every form x two operations in a row).
 Every program is built TWICE from
 its recorded spec, with freshly created function objects / bound methods / objects with a __repr__
 (objects without one are the program's own and shared by the two builds: their address is their
@@ -26,7 +32,11 @@ Oracle (direct reading of the property on the real objects):
   * Cascade.from_actions over the actions of both builds has pairwise distinct node names, keeps
     name -> computation, and serialises;
   * every action that existed before an operation has the same dims, coordinates and node objects
-    after it (also when the operation raised).
+    after it (also when the operation raised);
+  * every node, right after it was built, holds the callable arguments its author declared (the harness' own record; for
+    Payloads the library makes: what their constructor was given) plus one placeholder per input of its own, and
+    still holds exactly that at the end of the first build, after the second build and after the union: the payload a
+    name was hashed from is the payload the node has.
 Correspondence: (a) per build, what every node was built from + the observed names -> Coq
 (NamesCheck.check_names: hashed strings of the model vs. observed digests, name prefixes, from_source
 labels); (b) the operation sequence with the arrays of ALL actions after every operation -> Coq
@@ -34,7 +44,10 @@ labels); (b) the operation sequence with the arrays of ALL actions after every o
 every callable handed to the API is made of (module, qualified name, code and nested code constants,
 defaults, closure contents, repr of the receiver / of the object: read off the Python objects here)
 + its __name__ + the digest in the name of Node(callable) -> Coq (CallableCheck.check_callables: equal
-digest exactly for equal descriptions and names, i.e. the model Fluent/Callable.v of callable_id)."""
+digest exactly for equal descriptions and names, i.e. the model Fluent/Callable.v of callable_id); (d) the log of every
+Payload and Node construction of both builds, in order, with the Payload OBJECT each node was given, the observed name and
+the arguments held right after the construction, and all list objects at the end -> Coq (NamesHeapCheck.check_build: the
+heap machine Fluent/NamesHeap.v, where Payload.args is a reference and Payload.copy a parameter)."""
 import functools
 import hashlib
 import json
@@ -55,6 +68,9 @@ TRUSTED = [
     "coordinate values and cells are compared through str() and through the tuple of node names",
 ]
 ASSUMPTIONS = [
+    "Fluent/NamesHeap.v: Payload.args is a reference to a list object, Payload.copy goes through the constructor, Node.__init__ appends placeholders to its copy in place "
+    "and hashes the list as it is then; kwargs dicts are not written by the modelled code and are values; the construction log is taken by wrapping Node.__init__ / "
+    "Payload.__init__ from outside (behaviour unchanged); callable identities and digests enter check_build through equality only (short injective aliases)",
     "Section hypotheses of Fluent/NamesProofs.v: custom_hash (SHA-256 hexdigest) is injective and prints hex digits only",
     "in Fluent/Names.v a callable is its callable_id digest; Fluent/Callable.v opens the digest (module, qualified name, code, defaults, "
     "closure contents, repr of the receiver / of a non-function): Section hypothesis there: CPython's repr of the list `parts` "
@@ -74,6 +90,13 @@ ASSUMPTIONS = [
 
 HEADER = """From Coq Require Import List String Ascii Bool Arith.
 From EKW Require Import Fluent.Names Fluent.NamesCheck Fluent.Callable Fluent.CallableCheck.
+Import ListNotations.
+Open Scope string_scope.
+Open Scope list_scope.
+"""
+
+HEADER_BUILD = """From Coq Require Import List String Ascii Bool Arith.
+From EKW Require Import Fluent.Names Fluent.NamesHeap Fluent.NamesHeapCheck.
 Import ListNotations.
 Open Scope string_scope.
 Open Scope list_scope.
@@ -227,9 +250,10 @@ def spec_cname(c):
 class World:
     """the callables of one build; `instances` (objects without __repr__, wrapper objects) are shared between the builds of a case"""
 
-    def __init__(self, instances):
+    def __init__(self, instances, held_specs=(), rec=None):
         self.instances = instances
         self.by_id = {}
+        self.held_specs, self.local, self.rec = list(held_specs), {}, rec
 
     def obj(self, cls, inst):
         return self.instances.setdefault(("i", cls, inst), CLS[cls](inst))
@@ -412,12 +436,229 @@ def all_nodes(actions):
     return order
 
 
+# ------------------------------------------------------------------------------ construction log, caller-held objects
+PLACEHOLDER = re.compile(r"input\d+")
+
+
+class Recorder:
+    """Every construction of a fluent Node while a program runs (Node.__init__ wrapped from outside, nothing of its
+    behaviour changed): which Payload OBJECT it was given (objects are numbered at first sight, with what they held
+    just before that construction), what the node's payload held right after the construction, and what the harness
+    itself declared for the Payload objects it made.  One recorder per case: the objects a program holds live on
+    from the first build to the second."""
+
+    def __init__(self):
+        self.log, self.plist, self.pobjs, self.declared, self.fails, self.build = [], [], {}, {}, [], "A"
+        self.node_ix, self.created, self.events = {}, {}, []
+
+    def declare(self, obj, args, kwargs):
+        self.declared[id(obj)] = (obj, list(args or []), dict(kwargs or {}))
+
+    def declaration(self, given, Payload):
+        """(args, kwargs) the author of the program wrote for what was handed to Node(...), None if the library made it"""
+        if isinstance(given, Payload):
+            for table in (self.declared, self.created):      # the harness' own record first; else what the constructor was given
+                hit = table.get(id(given))
+                if hit is not None and hit[0] is given:
+                    return hit[1], hit[2]
+            return None
+        if isinstance(given, functools.partial):
+            return list(given.args), dict(given.keywords)
+        return [], {}
+
+    def payload_entry(self, p):
+        hit = self.pobjs.get(id(p))
+        if hit is not None and hit["obj"] is p:
+            return hit
+        ent = {"ix": len(self.plist), "obj": p, "func": p.func, "args": list(p.args), "kwargs": dict(p.kwargs)}
+        self.pobjs[id(p)] = ent
+        self.plist.append(ent)
+        self.events.append(("P", ent))
+        return ent
+
+    def install(self):
+        from earthkit.workflows import fluent
+        from earthkit.workflows.graph import Output
+        rec, orig, Payload = self, fluent.Node.__init__, fluent.Payload
+
+        def __init__(node, *a, **k):
+            given = a[0] if a else k.get("payload")
+            inputs = a[1] if len(a) > 1 else k.get("inputs", [])
+            ovr = a[3] if len(a) > 3 else k.get("name")
+            ent = rec.payload_entry(given) if isinstance(given, Payload) else None
+            orig(node, *a, **k)
+            func, args, kwargs = node.payload
+            try:
+                seq = [inputs] if isinstance(inputs, (fluent.BaseNode, Output)) else list(inputs)
+            except TypeError:
+                seq = []
+            as_out = [isinstance(x, Output) for x in seq]
+            ins = [(rec.node_ix.get(id(out.parent)), out.name if pos < len(as_out) and as_out[pos] else None) for pos, out in enumerate(node.inputs.values())]
+            e = {"node": node, "pix": None if ent is None else ent["ix"], "given": given, "func": func, "args0": list(args), "kw0": dict(kwargs),
+                 "nin": len(node.inputs), "ovr": ovr, "build": rec.build, "ins": ins, "nout": a[2] if len(a) > 2 else k.get("num_outputs", 1)}
+            rec.node_ix[id(node)] = len(rec.log)
+            rec.log.append(e)
+            rec.events.append(("N", e))
+            rec.as_declared(e, Payload)
+        self._orig, self._cls = orig, fluent.Node
+        fluent.Node.__init__ = __init__
+        porig = Payload.__init__
+
+        def pinit(p, *a, **k):
+            porig(p, *a, **k)
+            rec.created[id(p)] = (p, list(p.args), dict(p.kwargs))      # a Payload made by the library (Payload(callable), Payload(backends.sum, ...))
+        self._porig, self._pcls = porig, Payload
+        Payload.__init__ = pinit
+
+    def uninstall(self):
+        self._cls.__init__ = self._orig
+        self._pcls.__init__ = self._porig
+
+    def as_declared(self, e, Payload):
+        """the node just built holds the declared callable arguments and one placeholder per input of its own"""
+        want = [f"input{x}" for x in range(e["nin"])]
+        decl = self.declaration(e["given"], Payload)
+        stored = e["args0"]
+        if decl is None:
+            ph = [a for a in stored if isinstance(a, str) and PLACEHOLDER.fullmatch(a)]
+            if sorted(set(ph)) != sorted(want):
+                self.fails.append(("node-payload-not-as-declared", f"a node with {e['nin']} input(s) built by the library ({getattr(e['func'], '__name__', '?')}) "
+                                   f"holds the arguments {stored!r}: its placeholders are not those of its inputs"))
+            return
+        exp = list(decl[0])
+        for w in want:
+            if not any(isinstance(x, str) and x == w for x in exp):
+                exp.append(w)
+        if [vkey(v) for v in stored] != [vkey(v) for v in exp] or sorted([k, vkey(v)] for k, v in e["kw0"].items()) != sorted([k, vkey(v)] for k, v in decl[1].items()):
+            self.fails.append(("node-payload-not-as-declared", f"a node with {e['nin']} input(s) was built from a payload declared with arguments {decl[0]!r} {decl[1]!r} "
+                               f"but holds {stored!r} {e['kw0']!r} (build {e['build']})"))
+
+    def still_as_built(self, when):
+        """the payload of every node is what it was when the node got its name"""
+        for e in self.log:
+            func, args, kwargs = e["node"].payload
+            if func is not e["func"] or [vkey(v) for v in args] != [vkey(v) for v in e["args0"]] or \
+                    sorted([k, vkey(v)] for k, v in kwargs.items()) != sorted([k, vkey(v)] for k, v in e["kw0"].items()):
+                return [("node-payload-changed-after-construction",
+                         f"node {e['node'].name[:24]}... (build {e['build']}, {e['nin']} input(s)) was named for the arguments {e['args0']!r} {e['kw0']!r}; "
+                         f"{when} its payload holds {list(args)!r} {dict(kwargs)!r}")]
+        return []
+
+
+HELD_FORMS = ["payload", "payload", "payload", "payload", "subpayload", "partial", "parts", "parts"]
+_SUB = {}
+
+
+def subpayload_cls(Payload):
+    if Payload not in _SUB:
+        class _SubPayload(Payload):
+            """a Payload subclass with an attribute of its own"""
+            note = "kept"
+        _SUB[Payload] = _SubPayload
+    return _SUB[Payload]
+
+
+def held_object(world, j, Payload):
+    """the j-th object the program keeps and re-uses: a Payload (or an instance of a subclass), a functools.partial, or
+    the list and dict it makes its Payloads from.  scope program: one object for both builds (a module-level constant);
+    scope build: one per build."""
+    h = world.held_specs[j]
+    store = world.instances if h.get("scope", "program") == "program" else world.local
+    slot = ("held", j)
+    if slot not in store:
+        fn = world.make(h["fn"])
+        args = None if h.get("args") is None else [decode_static(v, world.instances) for v in h["args"]]
+        kwargs = None if h.get("kwargs") is None else {k: decode_static(v, world.instances) for k, v in h["kwargs"].items()}
+        form = h["form"]
+        if form == "payload":
+            obj = Payload(fn, args, kwargs)
+        elif form == "subpayload":
+            obj = subpayload_cls(Payload)(fn, args, kwargs)
+        elif form == "partial":
+            obj = functools.partial(fn, *(args or []), **(kwargs or {}))
+        else:
+            obj = (list(args or []), dict(kwargs or {}))
+        store[slot] = (obj, fn, args, kwargs)
+    obj, fn, args, kwargs = store[slot]
+    world.by_id[id(fn)] = (spec_key(h["fn"]), spec_cname(h["fn"]), fn)
+    if h["form"] == "parts":
+        obj = Payload(fn, obj[0], obj[1])
+    if isinstance(obj, Payload) and world.rec is not None:
+        world.rec.declare(obj, args, kwargs)
+    return obj
+
+
+def gen_held(rng, pool):
+    h = {"fn": rng.choice(pool), "form": rng.choice(HELD_FORMS), "scope": rng.choice(["program", "program", "program", "build"])}
+    q = rng.random()
+    if q < 0.25:
+        h["args"] = [rng.choice(STATICS)]
+    elif q < 0.4:
+        h["args"] = [rng.choice(["input0", "input1"]), rng.choice(STATICS)][: rng.choice([1, 2])]
+    elif q < 0.6:
+        h["kwargs"] = {rng.choice(["p", "q"]): rng.choice(STATICS)}
+    return h
+
+
+def choose_held_op(rng, snaps, nheld):
+    """an operation that hands one of the program's held objects to the API: nodes with 1 input (map, payload array, transform),
+    with as many inputs as a dimension is long (reduce), with several batches of different length (batched reduce)"""
+    j = rng.randrange(nheld)
+    i = rng.randrange(len(snaps))
+    s = snaps[i]
+    r = rng.random()
+    if r < 0.4 or not s["dims"]:
+        o = {"op": "map", "self": i, "held": j}
+        if rng.random() < 0.1:
+            o["yields"] = rng.choice([1, 2])
+        return o
+    if r < 0.8:
+        long = [d for d in s["dims"] if len(s["labels"][d]) > 1]
+        o = {"op": "reduce", "self": i, "held": j, "dim": rng.choice(long or s["dims"]), "keep": rng.random() < 0.15}
+        if rng.random() < 0.35:
+            o["batch"] = rng.choice([2, 3])
+        return o
+    if r < 0.92:
+        return {"op": "maparray", "self": i, "cells": [{"held": rng.randrange(nheld)} if rng.random() < 0.6 else {"held": j} for _ in s["names"]]}
+    return {"op": "transform", "self": i, "funcs": ["map", "map"][: rng.choice([1, 2])], "held": j, "dim": rng.choice(["t0", "t1"]), "axis": 0}
+
+
+def arity_steps(rng, prog):
+    """the end of a program that holds objects: one of them applied to nodes with ONE input, then to nodes with as many inputs
+    as a dimension is long, then to nodes with one input again (each step looks at the arrays as they are at its turn)"""
+    if not prog.get("held"):
+        return []
+    st = {"j": rng.randrange(len(prog["held"]))}
+
+    def small(snaps):
+        n = min(len(t["names"]) for t in snaps if t["names"])
+        return rng.choice([ix for ix, t in enumerate(snaps) if len(t["names"]) == n])
+
+    def map_one(snaps):
+        st.setdefault("i", small(snaps))
+        return {"op": "map", "self": st["i"], "held": st["j"], "probe": "arity"}
+
+    def reduce_long(snaps):
+        cands = [(len(t["labels"][d]), ix, d) for ix, t in enumerate(snaps) for d in t["dims"] if len(t["labels"][d]) > 1 and len(t["names"]) <= 12]
+        if not cands:
+            return None
+        top = max(c[0] for c in cands)
+        _, ix, d = rng.choice([c for c in cands if c[0] == top])
+        o = {"op": "reduce", "self": ix, "held": st["j"], "dim": d, "keep": False, "probe": "arity"}
+        if top >= 4 and rng.random() < 0.5:
+            o["batch"] = rng.choice([b for b in (2, 3) if b < top])
+        return o
+    return [map_one, reduce_long, map_one]
+
+
 # ------------------------------------------------------------------------------ running one program
 REDUCERS = ["sum", "mean", "max", "min", "prod", "std"]
 BINARY = ["add", "subtract", "multiply", "divide", "power"]
 
 
 def make_payload(world, spec, Payload):
+    if "held" in spec:
+        return held_object(world, spec["held"], Payload)
     fn = world.make(spec["fn"])
     args, kwargs, via = spec.get("args"), spec.get("kwargs"), spec.get("via", "plain")
     args = None if args is None else [decode_static(v, world.instances) for v in args]
@@ -426,7 +667,10 @@ def make_payload(world, spec, Payload):
         return functools.partial(fn, *(args or []), **(kwargs or {}))
     if args is None and kwargs is None:
         return fn
-    return Payload(fn, args, kwargs)
+    p = Payload(fn, args, kwargs)
+    if world.rec is not None:
+        world.rec.declare(p, args, kwargs)
+    return p
 
 
 def vary(rng, prev, snaps, spec_pool, force=None):
@@ -506,7 +750,7 @@ def vary(rng, prev, snaps, spec_pool, force=None):
 
 def choose_op(rng, snaps, spec_pool, earlier=()):
     """next operation, chosen on the current arrays"""
-    prev = [o for o in earlier if o["op"] in ("map", "reduce") and o["self"] < len(snaps)]
+    prev = [o for o in earlier if o["op"] in ("map", "reduce") and o["self"] < len(snaps) and "held" not in o]
     twinnable = [o for o in prev if any(twin_of(rng, v) is not None or v == "a, b" for v in list(o.get("args") or []) + list((o.get("kwargs") or {}).values()))]
     if twinnable and rng.random() < 0.2:
         return vary(rng, rng.choice(twinnable), snaps, spec_pool, force="alike")
@@ -537,7 +781,7 @@ def choose_op(rng, snaps, spec_pool, earlier=()):
         return {"op": "reduce", "self": i, "fn": fn(), "dim": rng.choice(dims), "keep": rng.random() < 0.2}
     if r < 0.4:
         d = rng.choice(dims)
-        return {"op": "named", "self": i, "which": rng.choice(REDUCERS), "dim": d, "batch": rng.choice([0, 0, 2, 3]), "keep": rng.random() < 0.15}
+        return {"op": "named", "self": i, "which": rng.choice(REDUCERS), "dim": d, "batch": rng.choice([0, 0, 2, 3, 3]), "keep": rng.random() < 0.15}
     if r < 0.55:
         same = [j for j, t in enumerate(snaps) if t["dims"] == dims and [len(t["labels"][d]) for d in dims] == [len(s["labels"][d]) for d in dims]]
         differ = [j for j in same if snaps[j]["labels"] != s["labels"]]
@@ -590,8 +834,21 @@ def apply_op(o, actions, world):
     if k == "map":
         y = o.get("yields")
         return a.map(make_payload(world, o, Payload), yields=("y", list(range(y))) if y else None)
+    if k == "maparray":
+        import numpy as np
+        cells = np.empty(a.nodes.shape, dtype=object)
+        for pos, spec in zip(np.ndindex(*a.nodes.shape), o["cells"]):
+            cells[pos] = make_payload(world, spec, Payload)
+        return a.map(cells)
     if k == "reduce":
-        return a.reduce(make_payload(world, o, Payload), dim=o["dim"], keep_dim=o["keep"])
+        p = make_payload(world, o, Payload)
+        if o.get("batch"):
+            try:
+                getattr(p, "func", p).batchable = True      # (bound methods, builtins ... refuse: the API then refuses the batching)
+            except (AttributeError, TypeError):
+                pass
+            return a.reduce(p, dim=o["dim"], keep_dim=o["keep"], batch_size=o["batch"])
+        return a.reduce(p, dim=o["dim"], keep_dim=o["keep"])
     if k == "named":
         return getattr(a, o["which"])(dim=o["dim"], batch_size=o["batch"], keep_dim=o["keep"])
     if k == "binary":
@@ -604,7 +861,7 @@ def apply_op(o, actions, world):
         crit = {d: coord_value(a, d, v) for d, v in o["crit"].items()}
         return a.select(crit, drop=o["drop"])
     if k == "transform":
-        fn = make_payload(world, {"fn": o["fn"]}, Payload)
+        fn = make_payload(world, {"held": o["held"]} if "held" in o else {"fn": o["fn"]}, Payload)
         funcs = {"self": lambda act, *p: act, "selempty": lambda act, *p: act.select({}), "map": lambda act, *p: act.map(fn)}
         n = len(o["funcs"])
         it = iter(o["funcs"])
@@ -697,15 +954,20 @@ def build_sources(prog, world):
     return actions, groups
 
 
-def run_build(prog, instances, rng=None, nops=0):
+def cell_fn(prog, c):
+    return prog["held"][c["held"]]["fn"] if "held" in c else c["fn"]
+
+
+def run_build(prog, instances, rng=None, nops=0, rec=None):
     """execute the program (generating its operations when rng is given).
     Returns observation dict; failures of operand integrity are collected in obs['fails']."""
-    world = World(instances)
+    world = World(instances, prog.get("held", ()), rec)
     actions, groups = build_sources(prog, world)
     fails, steps = [], []
     init = [snap(a) for a in actions]
     ops = prog.setdefault("ops", [])
-    pool = [s["fn"] for src in prog["sources"] for s in src["cells"]] + prog["pool"]
+    pool = [cell_fn(prog, s) for src in prog["sources"] for s in src["cells"]] + prog["pool"]
+    nheld = len(prog.get("held", ()))
     plan, t = None, -1
     while True:
         t += 1
@@ -714,11 +976,11 @@ def run_build(prog, instances, rng=None, nops=0):
             if t >= len(ops):
                 break
         elif t < nops:
-            ops.append(choose_op(rng, before, pool, ops))
+            ops.append(choose_held_op(rng, before, nheld) if nheld and rng.random() < 0.3 else choose_op(rng, before, pool, ops))
         else:
-            # the end of every generated program: the designed pairs, then inputs in swapped order
+            # the end of every generated program: the designed pairs, inputs in swapped order, a held object with 1 / n / 1 inputs
             if plan is None:
-                plan = [(lambda snaps, o=o: o) for o in probe_ops(rng, prog, before)] + swap_steps(rng, pool)
+                plan = [(lambda snaps, o=o: o) for o in probe_ops(rng, prog, before)] + swap_steps(rng, pool) + arity_steps(rng, prog)
             o = None
             while plan and o is None:
                 o = plan.pop(0)(before)
@@ -788,13 +1050,25 @@ def node_table(obs, comps):
 
 
 def run_program(prog, rng=None, nops=0):
-    """both builds + union; returns (observations, failures)"""
+    """both builds + union, with every Node construction logged; returns (observations, failures)"""
+    rec = Recorder()
+    rec.install()
+    try:
+        return _run_program(prog, rng, nops, rec)
+    finally:
+        rec.uninstall()
+
+
+def _run_program(prog, rng, nops, rec):
     from earthkit.workflows import Cascade
     from earthkit.workflows.graph import serialise
     instances = {}
     fails = []
-    A = run_build(prog, instances, rng, nops)
-    B = run_build(prog, instances)
+    A = run_build(prog, instances, rng, nops, rec)
+    late = rec.still_as_built("at the end of the first build")
+    rec.build = "B"
+    B = run_build(prog, instances, rec=rec)
+    late = late or rec.still_as_built("after the second build of the program")
     fails += A["fails"]
     comps = Comps()
     orderA, rowsA = node_table(A, comps)
@@ -852,7 +1126,8 @@ def run_program(prog, rng=None, nops=0):
     for ix, (b, c) in enumerate(zip(before, after)):
         if not same_snap(b, c):
             fails.append(("operand-changed", f"Cascade.from_actions changed action #{ix}"))
-    return {"A": A, "B": B, "rowsA": rowsA, "rowsB": rowsB}, fails
+    fails += rec.fails[:1] + (late or rec.still_as_built("after Cascade.from_actions over both builds"))
+    return {"A": A, "B": B, "rowsA": rowsA, "rowsB": rowsB, "rec": rec}, fails
 
 
 # ------------------------------------------------------------------------------ generator
@@ -871,6 +1146,9 @@ def gen_program(rng):
     sources = []
     dims = rng.choice([["x"], ["x"], ["x", "y"], ["y", "x"]])
     sizes = {d: rng.choice([1, 2, 2, 3]) for d in dims}
+    if rng.random() < 0.3:
+        sizes[rng.choice(dims)] = rng.choice([4, 5, 5])      # long enough for batches of different length (3 + 2, 2 + 2 + 1)
+    held = [gen_held(rng, pool) for _ in range(rng.choice([1, 2, 2, 3]))] if rng.random() < 0.6 else []
     for sidx in range(rng.choice([1, 2, 2])):
         if sidx == 1 and rng.random() < 0.25:
             dims = rng.choice([["x"], ["z", "x"]])
@@ -884,13 +1162,15 @@ def gen_program(rng):
         for _ in range(ncell):
             c = {"fn": rng.choice(pool)}
             q = rng.random()
-            if q < 0.2:
+            if held and q > 0.85:
+                c = {"held": rng.randrange(len(held))}      # the held object also is a source payload (a node without inputs)
+            elif q < 0.2:
                 c["args"] = [rng.choice(STATICS)]
             elif q < 0.3:
                 c["args"], c["via"] = [rng.choice(STATICS)], "partial"
             cells.append(c)
         sources.append({"dims": list(dims), "coords": coords, "cells": cells})
-    return {"sources": sources, "pool": pool, "pairs": pairs}
+    return {"sources": sources, "pool": pool, "pairs": pairs, "held": held}
 
 
 # ------------------------------------------------------------------------------ Coq terms
@@ -979,6 +1259,51 @@ def callables_case(worlds):
     return clist(rows), len(rows)
 
 
+def build_case(obs):
+    """the construction log of both builds for NamesHeapCheck.check_build: Payload objects at first sight (with what the
+    harness declared for them, else what their constructor was given), Node constructions with the observed name and the
+    arguments held right after, and all list objects at the end of the case"""
+    from earthkit.workflows.fluent import Payload
+    rec = obs["rec"]
+    w = World({})
+    w.by_id = {**obs["A"]["world"].by_id, **obs["B"]["world"].by_id}
+    table = {}
+
+    alias = {}
+
+    def short(kind, long):      # callable identities and digests enter the comparison through equality only: short injective aliases
+        return alias.setdefault((kind, long), f"{kind}{len(alias)}")
+
+    def ftok(func):
+        key, cname = w.identify(func)
+        tok = short("f", cid_token(key))
+        table[tok] = cname
+        return tok
+
+    def ckw(kw):
+        return clist([f"({cstr(k)}, {cval(v)})" for k, v in kw.items()])
+    steps = []
+    for kind, e in rec.events:
+        if kind == "P":
+            decl = rec.declaration(e["obj"], Payload) or (e["args"], e["kwargs"])
+            steps.append(f"CP {cstr(ftok(e['func']))} {clist(decl[0], cval)} {ckw(decl[1])}")
+            continue
+        if any(p is None for p, _ in e["ins"]):
+            raise ValueError("a node reads a node that was not built while the program ran")
+        if e["pix"] is not None:
+            src = f"(SPayload {cnat(e['pix'])})"
+        else:
+            decl = rec.declaration(e["given"], Payload)
+            src = f"(SFunc {cstr(ftok(e['func']))} {clist(decl[0], cval)} {ckw(decl[1])})"
+        base, digest = split_name(e["node"].name)
+        ins = clist([f"({cnat(p)}, {copt(o, cstr)})" for p, o in e["ins"]])
+        steps.append(f"CN {src} {copt(e['ovr'], cstr)} {ins} {cstr(str(e['nout']))} {cstr(base)} {cstr(short('d', digest))} {clist(e['args0'], cval)}")
+    node_args = clist([clist(list(e["node"].payload[1]), cval) for e in rec.log])
+    payload_args = clist([clist(list(ent["obj"].args), cval) for ent in rec.plist])
+    tb = clist([f"({cstr(k)}, {cstr(v)})" for k, v in table.items()])
+    return f"({tb}, {clist(steps)}, {node_args}, {payload_args})", len(rec.log)
+
+
 class Cells:
     def __init__(self):
         self.t = {}
@@ -1001,7 +1326,7 @@ def cop(o, step, cells):
     k = o["op"]
     if any(s["unl"]) and k in ("stack", "concatenate", "transform"):
         return None
-    if k in ("map", "reduce", "named", "broadcast", "flatten") or (k == "binary" and "other" not in o):
+    if k in ("map", "maparray", "reduce", "named", "broadcast", "flatten") or (k == "binary" and "other" not in o):
         others = [o["other"]] if "other" in o else []
         return f"OAtomic {cnat(o['self'])} {clist(others, cnat)} {carr(res, cells)}"
     if k == "binary":
@@ -1067,15 +1392,16 @@ def coq_check_all(jobs, shard):
     d.mkdir(parents=True, exist_ok=True)
     uniq = f"p{os.getpid()}"
     files = []
-    for tag, terms, checker in jobs:
-        for k in range(0, len(terms), shard):
-            chunk = terms[k:k + shard]
-            p = d / f"{tag}_{uniq}_{k // shard}.v"
-            p.write_text(HEADER + SHOW + f"Eval vm_compute in show (List.map ({checker}) [\n" + ";\n".join("  " + c for c in chunk) + "\n]).\n")
+    for tag, terms, checker, *hdr in jobs:
+        width = shard.get(tag, shard[""]) if isinstance(shard, dict) else shard
+        for k in range(0, len(terms), width):
+            chunk = terms[k:k + width]
+            p = d / f"{tag}_{uniq}_{k // width}.v"
+            p.write_text((hdr[0] if hdr else HEADER) + SHOW + f"Eval vm_compute in show (List.map ({checker}) [\n" + ";\n".join("  " + c for c in chunk) + "\n]).\n")
             files.append((tag, p, len(chunk)))
-    out = {tag: ([], []) for tag, _, _ in jobs}
+    out = {job[0]: ([], []) for job in jobs}
     try:
-        with ThreadPoolExecutor(max_workers=8) as ex:
+        with ThreadPoolExecutor(max_workers=int(os.environ.get("VERIF_COQ_JOBS", "8"))) as ex:
             outs = list(ex.map(lambda f: coq_eval_file(f[1], 600), files))
         for (tag, p, n), (rc, text) in zip(files, outs):
             m = re.search(r'=\s*"([01]*)"', text.replace("\n", "").replace(" ", "")) if rc == 0 else None
@@ -1095,8 +1421,30 @@ def coq_check_all(jobs, shard):
 
 
 # ------------------------------------------------------------------------------ driver
+def arity_matrix():
+    """small scope, exhaustive: one object the program holds (every form) handed to two operations in a row, each of them
+    map (1 input per node), reduce over 5 (5 inputs), reduce in batches of 3 + 2 and of 2 + 2 + 1 -- and the program built twice"""
+    f = {"kind": "def", "name": "f", "body": 0}
+    g = {"kind": "def", "name": "g", "body": 1}
+    kinds = [{"op": "map"}, {"op": "reduce", "dim": "x", "keep": False}, {"op": "reduce", "dim": "x", "keep": False, "batch": 3},
+             {"op": "reduce", "dim": "x", "keep": False, "batch": 2}]
+    out = []
+    extras = ({}, {"args": [1]}, {"kwargs": {"p": 1}})
+    for form in ("payload", "subpayload", "partial", "parts"):
+        for a in kinds:
+            for b in kinds:
+                out.append({"sources": [{"dims": ["x"], "coords": {"x": [0, 1, 2, 3, 4]}, "cells": [{"fn": g, "args": [i]} for i in range(5)]}],
+                            "pool": [f, g], "held": [{"fn": f, "form": form, "scope": "program", **extras[len(out) % 3]}],
+                            "ops": [{"self": 0, "held": 0, **a}, {"self": 0, "held": 0, **b}]})
+    return out
+
+
 def stored(prog):
-    return {"sources": prog["sources"], "pool": prog.get("pool", []), "ops": prog.get("ops", [])}      # (the probes are among the ops)
+    return {"sources": prog["sources"], "pool": prog.get("pool", []), "held": prog.get("held", []), "ops": prog.get("ops", [])}      # (the probes are among the ops)
+
+
+def prog_of(c):
+    return {"sources": c["sources"], "pool": c["pool"], "held": c.get("held", []), "ops": [dict(o) for o in c.get("ops", [])]}
 
 
 def run(ctx, res):
@@ -1108,15 +1456,21 @@ def run(ctx, res):
         c = stored_case.get("case")
         if isinstance(c, dict) and "sources" in c:
             try:
-                _, fails = run_program({"sources": c["sources"], "pool": c["pool"], "ops": [dict(o) for o in c.get("ops", [])]})
+                _, fails = run_program(prog_of(c))
             except Exception as e:
                 fails = [("harness-cannot-drive-fluent-api", repr(e))]
             res.count("corpus-case")
             for sig, what in fails:
                 res.fail(sig, what, c)
+    for prog in arity_matrix():
+        obs, fails = run_program(prog)
+        res.count("small-scope:held-object-two-operations")
+        res.evaluations += 2 * (1 + len(prog["ops"]))
+        for sig, what in fails:
+            res.fail(sig, what, stored(prog))
     rng = ctx.sub_rng("programs")
     nprog = ctx.n(160, 3200)
-    name_terms, name_meta, op_terms, op_meta, call_terms, call_meta = [], [], [], [], [], []
+    name_terms, name_meta, op_terms, op_meta, call_terms, call_meta, build_terms, build_meta = [], [], [], [], [], [], [], []
     for k in range(nprog):
         prog = gen_program(rng)
         obs, fails = run_program(prog, rng, nops=rng.choice([3, 5, 7, 9]))
@@ -1140,6 +1494,10 @@ def run(ctx, res):
         for o in prog["ops"]:
             if "fn" in o:
                 res.count("callable-kind:" + o["fn"]["kind"])
+            if "held" in o or o["op"] == "maparray":
+                res.count("held-object-op:" + o["op"] + (":batched" if o.get("batch") else ""))
+        for h in prog.get("held", []):
+            res.count("held-object:" + h["form"] + ":" + h["scope"])
         rows = obs["rowsA"]
         for r in rows:
             if r["nin"]:
@@ -1170,15 +1528,24 @@ def run(ctx, res):
             call_terms.append(term)
             call_meta.append(prog)
             res.count("callables-described", n)
+            if prog.get("held") or k % 6 == 0:      # every program that holds objects, a sixth of the others
+                term, n = build_case(obs)
+                build_terms.append(term)
+                build_meta.append(prog)
+                res.count("node-constructions-replayed-on-the-heap-machine", n)
         except ValueError as e:
             res.disagree(f"case cannot be written as a Coq term: {e}", stored(prog))
-    checked = coq_check_all([("names", name_terms, "check_names"), ("ops", op_terms, "check_ops"), ("callables", call_terms, "check_callables")],
-                            shard=ctx.n(20, 100))
+    checked = coq_check_all([("names", name_terms, "check_names"), ("ops", op_terms, "check_ops"), ("callables", call_terms, "check_callables"),
+                             ("build", build_terms, "check_build", HEADER_BUILD)],
+                            shard={"": ctx.n(20, 100), "ops": ctx.n(40, 100), "callables": ctx.n(40, 100), "build": ctx.n(20, 60)})
     for tag, meta, what in (
             ("names", name_meta, "Coq model of node naming disagrees with earthkit.workflows.fluent (name prefix, from_source label, or which nodes share a digest)"),
             ("ops", op_meta, "Coq heap model of fluent operations disagrees with earthkit.workflows.fluent (returned action, or the array of some action after an operation)"),
             ("callables", call_meta, "Coq model of callable_id disagrees with earthkit.workflows.fluent (two callables made of different things -- code, defaults, "
-                                     "closure contents, receiver, repr -- share the digest in a node name, or equal ones do not)")):
+                                     "closure contents, receiver, repr -- share the digest in a node name, or equal ones do not)"),
+            ("build", build_meta, "Coq heap machine of node construction disagrees with earthkit.workflows.fluent on the construction log of a program (the arguments a node "
+                                  "holds right after it was built or at the end of both builds, what a Payload object of the caller holds at the end, the part of a name "
+                                  "before ':', or which constructions hashed the same string)")):
         r, logs = checked[tag]
         res.corr_checked += len(r)
         for ok, prog in zip(r, meta):
@@ -1217,7 +1584,7 @@ def shrink(ctx, f):
             return None
         hit = [x for x in fails if x[0] == f["signature"]]
         return hit[0][1] if hit else None
-    case = {k: f["case"][k] for k in ("sources", "pool", "ops") if k in f["case"]}
+    case = {k: f["case"][k] for k in ("sources", "pool", "held", "ops") if k in f["case"]}
     case.setdefault("ops", [])
     best = None
     for n in range(len(case["ops"]) + 1):
@@ -1253,7 +1620,7 @@ def replay(ctx, case):
     c = case.get("case", case)
     if not isinstance(c, dict) or "sources" not in c:
         return {"fails": None, "note": "no concrete input stored (proof / correspondence breakage): re-run ./check C14"}
-    _, fails = run_program({"sources": c["sources"], "pool": c["pool"], "ops": [dict(o) for o in c.get("ops", [])]})
+    _, fails = run_program(prog_of(c))
     sig = case.get("signature")
     hit = [f for f in fails if sig is None or f[0] == sig]
     return {"fails": bool(hit), "failures": [list(f) for f in fails[:5]]}
